@@ -21,7 +21,14 @@ func init() {
 			v := ex.newInput(ex.concStr(args[0], "verifIntIn"), "int", SortBV(64))
 			lo, hi := args[1].(*Term), args[2].(*Term)
 			ex.H.Assumes["input "+ex.concStr(args[0], "")+" in ["+showValue(lo)+","+showValue(hi)+"]"] = true
-			ex.addPC(And(BVCmp("bvsle", lo, v), BVCmp("bvsle", v, hi)))
+			// the declared range is recorded without marking the variable as otherwise constrained
+			ex.pc = append(ex.pc, And(BVCmp("bvsle", lo, v), BVCmp("bvsle", v, hi)))
+			if lo.IsConst() && hi.IsConst() {
+				if ex.ranges == nil {
+					ex.ranges = map[string][2]int64{}
+				}
+				ex.ranges[v.S] = [2]int64{lo.Signed(), hi.Signed()}
+			}
 			return v
 		},
 		"verifI32": func(ex *Exec, fn *ssa.Function, args []Value) Value {
